@@ -163,7 +163,7 @@ var (
 		Text: "every for statement in a function reachable from VM.Run other than the dispatch loop is a range, a counted loop, a loop that changes its condition or an open loop with an exit; a counter stepped by a run-time value is guarded against wrapping around (an endless builtin is out of reach of Abort and of the allocation limit)"}
 	rCMP5 = &Rule{Name: "CMP.5", Floor: 10, Fn: ruleCMP5,
 		Text: "copy yields an equal value: for every value type whose Copy builds a new object, Equals is not pointer identity or constant false (listed findings: error and function values)"}
-	rFMT6 = &Rule{Name: "FMT.6", Floor: 10, Fn: ruleFMT6,
+	rFMT6 = &Rule{Name: "FMT.6", Floor: 11, Fn: ruleFMT6,
 		Text: "near-ports: writePadding, fmtInteger, fmtSbx, fmtC, pp.fmtInteger, pp.fmtBytes, pp.badVerb, pp.badArgNum, pp.missingArg and the directive parser pp.doFormat (vs doPrintf) equal the building toolchain's fmt statement by statement (alpha-normalised, longest common subsequence) except for the MaxStringLen guards the port added and one tabled difference each"}
 	rFMT7 = &Rule{Name: "FMT.7", Floor: 9, Fn: ruleFMT7,
 		Text: "printArg's type dispatch: each object arm is fmt's arm for the Go type of the object's value applied to that value (Bool through !IsFalsy()), the default arm formats String() as a string, %T/%v are served first from TypeName()/String()"}
@@ -175,6 +175,10 @@ var (
 		Text: "the literal scanners scanEscape, scanRune, scanString, scanRawString and skipWhitespace/switch2-4 equal the building toolchain's go/scanner statement by statement (alpha-normalised)"}
 	rXCH4 = &Rule{Name: "XCH.4", Floor: 2, Fn: ruleXCH4,
 		Text: "Compiled.Set stores the FromInterface conversion of its argument on every path that reports success (no way out between the name lookup and the store except an error return)"}
+	rFMT8 = &Rule{Name: "FMT.8", Floor: 2, Fn: ruleFMT8,
+		Text: "the script-level entry points (builtin format, fmt.sprintf) hand every format string to Format and never return it verbatim"}
+	rSYM2 = &Rule{Name: "SYM.2", Floor: 1, Fn: ruleSYM2,
+		Text: "builtin function names do not occupy the scope that holds the program's globals and the host's variables (listed finding: they do, so a global or host variable named like a builtin collides with it)"}
 	rSEARCH1 = &Rule{Name: "SEARCH.1", Floor: 2, Fn: ruleSEARCH1,
 		Text: "the position→file lookup is `last file with Base <= x`: searchFiles is sort.Search over Base > x minus one (or a clone of its documented sibling searchInts), and both containment tests are Base <= p <= Base+Size"}
 )
@@ -224,11 +228,11 @@ func allProperties() []*Property {
 		{ID: "C15",
 			Decided:    "type-level round trip of FromInterface/ToInterface; typed accessors call the documented conversion; Set/Get/GetAll guards; lock discipline; conversion table agreement.",
 			NotDecided: "the history clause (a variable reads as the last value set) over all call sequences.",
-			Rules:      []*Rule{rXCH, rXCH4, rLOCK, rCONV1, rCLONE1}},
+			Rules:      []*Rule{rXCH, rXCH4, rSYM2, rLOCK, rCONV1, rCLONE1}},
 		{ID: "C11",
 			Decided:    "the three variable families' selector-assignment arms are clones; operand decoding of all Local/Free/Global opcodes agrees with the encoder.",
 			NotDecided: "the metamorphic relation itself (needs executing transformed programs).",
-			Rules:      []*Rule{rFAM1, rLOCALTS, rCODEC3, rSYM1, rTAIL}},
+			Rules:      []*Rule{rFAM1, rLOCALTS, rCODEC3, rSYM1, rSYM2, rTAIL}},
 		{ID: "C13",
 			Decided:    "module bodies are compiled against a fresh builtin-only table; the cycle check dominates and walks the import stack; compile-once ordering at the root cache; import = CONST+CALL; exported values pass OpImmutable; file APIs are confined behind the permission flag.",
 			NotDecided: "termination and the exact success condition over all import graphs as a run-time fact.",
@@ -244,7 +248,7 @@ func allProperties() []*Property {
 		{ID: "C17",
 			Decided:    "all output goes through writers guarded by MaxStringLen; explicit panics are the limit error or proven unreachable; width/precision are bounded; printer pooling hygiene; verb dispatch, flag parsing and the verbatim-ported helpers agree with the building toolchain's fmt.",
 			NotDecided: "equality with fmt.Sprintf for all inputs (the non-identical parts of the port: fmtInteger, fmtFloat, fmtC, padding, doFormat's argument handling); implicit index panics inside digit loops.",
-			Rules:      []*Rule{rLIMIT2, rFMT1, rFMT2, rFMT3, rFMT4, rFMT5, rFMT6, rFMT7, rPOOL1}},
+			Rules:      []*Rule{rLIMIT2, rFMT1, rFMT2, rFMT3, rFMT4, rFMT5, rFMT6, rFMT7, rFMT8, rPOOL1}},
 		{ID: "C18",
 			Decided:    "the validity automaton equals encoding/json's state by state; validate-before-decode; number typing by '.', 'e', 'E'; escape tables equal the reference's; encoder arms for all named types.",
 			NotDecided: "round-trip equality of values; number and string values after decoding; float formatting.",
